@@ -202,7 +202,8 @@ class YAMLFormatter(GraphtageFormatter):
 
         """
         # Treat the container like a list
-        list_node = ListNode(node.children())
+        # (the children are copied because they already have a parent)
+        list_node = ListNode((c.copy() for c in node.children()))
         self.print(printer, list_node)
 
 
